@@ -467,14 +467,52 @@ let string_of_strategy = function
   | SGround -> "Ground" | SComplete -> "Complete" | SStable -> "Stable" | SStableCountingA -> "StableCountingA"
   | SStableCountingB -> "StableCountingB" | SStableNogood -> "StableNogood"
 let string_of_task = function TParse -> "Parse" | TSolve s -> "Solve:" ^ string_of_strategy s
-let opt3_string (o : n list list opt3) = match o with
-  | ONone -> "None" | OError -> "Error" | OSome l -> "Some:" ^ String.concat "," (List.map interp_string l)
-let pinfo_string (i : n list list pinfo) =
+let graph_string (g : dgraph) : string =
+  let lab = function LTop -> "TOP" | LBot -> "BOT" | LVar v -> "v" ^ sn v in
+  "N" ^ String.concat "," (List.map sn g.g_nodes)
+  ^ "L" ^ String.concat "," (List.map (fun (h, l) -> sn h ^ "=" ^ lab l) g.g_labels)
+  ^ "R" ^ String.concat "," (List.map (fun (h, l) -> sn h ^ "=" ^ String.concat "+" (List.map (fun x -> string_of_int (int_of_nat x)) l)) g.g_roots)
+  ^ "l" ^ String.concat "," (List.map (fun (a, b) -> sn a ^ ">" ^ sn b) g.g_lo)
+  ^ "h" ^ String.concat "," (List.map (fun (a, b) -> sn a ^ ">" ^ sn b) g.g_hi)
+(* the same graph with its nodes renumbered in preorder from the roots (statement order, lo before hi): used for
+   problems parsed with the Hybrid strategy, whose node numbering is biodivine's and is not modelled *)
+let graph_string_canon (g : dgraph) : string =
+  let lab = function LTop -> "TOP" | LBot -> "BOT" | LVar v -> "v" ^ sn v in
+  let lo = Hashtbl.create 64 and hi = Hashtbl.create 64 and ren = Hashtbl.create 64 in
+  List.iter (fun (a, b) -> Hashtbl.replace lo (sn a) (sn b)) g.g_lo;
+  List.iter (fun (a, b) -> Hashtbl.replace hi (sn a) (sn b)) g.g_hi;
+  let roots = List.concat (List.map (fun (h, l) -> List.map (fun x -> (int_of_nat x, sn h)) l) g.g_roots) in
+  let cnt = ref 0 in
+  let rec visit k =
+    if not (Hashtbl.mem ren k) then begin
+      Hashtbl.replace ren k !cnt; incr cnt;
+      (match Hashtbl.find_opt lo k with Some b -> visit b | None -> ());
+      (match Hashtbl.find_opt hi k with Some b -> visit b | None -> ())
+    end in
+  List.iter (fun (_, k) -> visit k) (List.sort compare roots);
+  List.iter (fun h -> visit (sn h)) g.g_nodes;     (* nodes not reachable from a root keep a place *)
+  let r k = Hashtbl.find ren k in
+  let si = string_of_int in
+  let nodes = List.sort compare (List.map (fun h -> r (sn h)) g.g_nodes) in
+  let labels = List.sort compare (List.map (fun (h, l) -> (r (sn h), lab l)) g.g_labels) in
+  let rts = List.sort compare (List.map (fun (h, l) -> (r (sn h), List.sort compare (List.map int_of_nat l))) g.g_roots) in
+  let edges l = List.sort compare (List.map (fun (a, b) -> (r (sn a), r (sn b))) l) in
+  "N" ^ String.concat "," (List.map si nodes)
+  ^ "L" ^ String.concat "," (List.map (fun (h, l) -> si h ^ "=" ^ l) labels)
+  ^ "R" ^ String.concat "," (List.map (fun (h, l) -> si h ^ "=" ^ String.concat "+" (List.map si l)) rts)
+  ^ "l" ^ String.concat "," (List.map (fun (a, b) -> si a ^ ">" ^ si b) (edges g.g_lo))
+  ^ "h" ^ String.concat "," (List.map (fun (a, b) -> si a ^ ">" ^ si b) (edges g.g_hi))
+let fnv_short (s : string) = String.sub (fnv s) 0 8
+let opt3_string ?(canon = false) (o : (n list * dgraph) list opt3) = match o with
+  | ONone -> "None" | OError -> "Error"
+  | OSome l -> String.concat "" ["Some:"; String.concat "," (List.map (fun (v, g) ->
+      interp_string v ^ (if canon then "~" ^ fnv_short (graph_string_canon g) else "#" ^ fnv_short (graph_string g))) l)]
+let pinfo_string (i : (n list * dgraph) list pinfo) =
   let strategies = [SGround; SComplete; SStable; SStableCountingA; SStableCountingB; SStableNogood] in
   let res st = match List.find_opt (fun (x, _) -> x = st) i.i_res with Some (_, r) -> r | None -> ONone in
   "problem " ^ hex (string_of_str i.i_name) ^ " " ^ (match i.i_parsing with PNaive -> "Naive" | PHybrid -> "Hybrid")
-  ^ " code=" ^ hex (string_of_str i.i_code) ^ " parse=" ^ opt3_string i.i_parse ^ " "
-  ^ String.concat " " (List.map (fun st -> string_of_strategy st ^ "=" ^ opt3_string (res st)) strategies)
+  ^ " code=" ^ hex (string_of_str i.i_code) ^ " parse=" ^ opt3_string ~canon:(i.i_parsing = PHybrid) i.i_parse ^ " "
+  ^ String.concat " " (List.map (fun st -> string_of_strategy st ^ "=" ^ opt3_string ~canon:(i.i_parsing = PHybrid) (res st)) strategies)
   ^ " running=" ^ String.concat "," (List.sort compare (List.map string_of_task i.i_running))
 let run_server id (lines : string list) =
   let st = ref s0 in
